@@ -272,24 +272,28 @@ def processReconstruct (cfg : Cfg) (nd : Node) (sid index dealerIdx : Nat) (hasS
 def finished (cfg : Cfg) (nd : Node) : Bool :=
   (qual cfg nd).all (fun i => (nd.commitments.lookup i).isSome) && decide (nd.t ≤ (qual cfg nd).length)
 
+/-- One iteration of the loop of `DistKeyShare()` over `QUAL()`: add the share received from dealer `i` and the
+    commitments held for it (`none`: an error). -/
+def dksStep (cfg : Cfg) (nd : Node) (acc : Option (Nat × Option (List Nat))) (i : Nat) :
+    Option (Nat × Option (List Nat)) :=
+  match acc with
+  | none => none
+  | some (sh, pub) =>
+    match qualVerifier cfg nd i with
+    | none => none
+    | some a =>
+      match a.deal, nd.commitments.lookup i with
+      | some dl, some cs =>
+        match pub with
+        | none => some (Scalar.add cfg.q sh dl.v, some cs)
+        | some p => (Share.polyAdd cfg.q p cs).map (fun r => (Scalar.add cfg.q sh dl.v, some r))
+      | _, _ => none
+
 /-- `DistKeyShare()`: the own share of the distributed secret and the commitments of the distributed polynomial
     (`none`: an error). Sums over `QUAL()` in any order (addition is commutative; the Go code iterates a map). -/
 def distKeyShare (cfg : Cfg) (nd : Node) : Option (Nat × List Nat) :=
   if !certified cfg nd then none else
-  let step := fun (acc : Option (Nat × Option (List Nat))) (i : Nat) =>
-    match acc with
-    | none => none
-    | some (sh, pub) =>
-      match qualVerifier cfg nd i with
-      | none => none
-      | some a =>
-        match a.deal, nd.commitments.lookup i with
-        | some dl, some cs =>
-          match pub with
-          | none => some (Scalar.add cfg.q sh dl.v, some cs)
-          | some p => (Share.polyAdd cfg.q p cs).map (fun r => (Scalar.add cfg.q sh dl.v, some r))
-        | _, _ => none
-  match (qual cfg nd).foldl step (some (0, none)) with
+  match (qual cfg nd).foldl (dksStep cfg nd) (some (0, none)) with
   | some (sh, some pub) => some (sh, pub)
   | _ => none
 
